@@ -448,7 +448,8 @@ def _set_once(eng, sl, fkey):
     vals = list(hinc.values())
     nones = [v for v in vals if v.op == "enum" and len(v.args[1]) == 1 and v.args[1][0][1] == "None"]
     backs = [v for v in vals if v is sl]
-    if len(vals) != 2 or len(nones) != 1 or len(backs) != 1:
+    # one entry value (None); every back edge (there may be several: `continue`) carries sl itself
+    if len(nones) != 1 or len(backs) < 1 or len(nones) + len(backs) != len(vals):
         return False
     # the Some value is assigned only where H is None
     pred = somes[0][0]
